@@ -23,6 +23,8 @@ def run_family(ck, binary, family, count, seed, strict):
         lines += open(f).read().splitlines()
     open(trace, "w").write("\n".join(lines) + "\n")
     if not lines:
+        if rep["divergences"]:      # every run diverged (hung, ...) before completing: the verdict comes from the divergences
+            return [], wd
         raise vlib.Infra("no trace recorded for family " + family)
     r = vlib.tlc("SubscriberTrace", "SubscriberTrace.cfg" if strict else "SubscriberTraceMixed.cfg", workers=1, timeout=3000,
                  env_extra={"VERIF_TRACE": trace}, tag="subtr" + family, heap="8g")
